@@ -132,7 +132,7 @@ def shards(tier):
     for i in range(12 if q else 12):
         out.append({"name": "hyp:%d" % i, "kind": "hyp", "examples": 22 if q else 300})
     for i in range(2 if q else 4):
-        out.append({"name": "hyp-njobs:%d" % i, "kind": "hyp", "examples": 10 if q else 120, "n_jobs": (2, 4, 16), "procs": 4})
+        out.append({"name": "hyp-njobs:%d" % i, "kind": "hyp", "examples": 12 if q else 120, "n_jobs": (2, 3, 4, 16), "procs": 4})
     return out
 
 
